@@ -6,6 +6,7 @@ import (
 	"encoding/hex"
 	"fmt"
 	"os"
+	"strconv"
 	"strings"
 	"testing"
 
@@ -62,7 +63,33 @@ var writes = func() []write {
 }()
 
 func metaOf(i int) []s3c.KV {
-	return []s3c.KV{{K: "x-amz-meta-w", V: fmt.Sprint(i)}, {K: "Content-Type", V: fmt.Sprintf("text/w%d", i)}}
+	return []s3c.KV{{K: "x-amz-meta-w", V: fmt.Sprint(i)}, {K: "Content-Type", V: fmt.Sprintf("text/w%d", i)}, {K: "x-amz-tagging", V: fmt.Sprintf("w=%d", i)}}
+}
+
+// attributeTags: which write the tag set of the key belongs to (every write comes with the tag w=<its number>)
+func attributeTags(r *s3c.Resp) outcome {
+	o := outcome{Status: r.Status}
+	if r.Status != 200 {
+		o.Note = r.Code()
+		if r.Code() != "NoSuchKey" {
+			// (an object without tag set answers 404 too: no write is without tags)
+			o.Status = 200
+			o.Torn = fmt.Sprintf("GetObjectTagging answers %d %s: every write of the key came with a tag set", r.Status, r.Code())
+		}
+		return o
+	}
+	var t s3c.Tagging
+	if err := s3c.ParseXML(r, &t); err != nil || len(t.Tags) != 1 || t.Tags[0].Key != "w" {
+		o.Torn = fmt.Sprintf("tag set %+v is that of no write", t.Tags)
+		return o
+	}
+	n, err := strconv.Atoi(t.Tags[0].Value)
+	if err != nil || n < 1 || n > maxWrites {
+		o.Torn = fmt.Sprintf("tag set %+v is that of no write", t.Tags)
+		return o
+	}
+	o.Val = n
+	return o
 }
 
 // putHdrs: a plain upload also declares the CRC32 of its body, which the gateway stores and returns on request
@@ -73,7 +100,7 @@ func putHdrs(i int) []s3c.KV {
 // ---- case ---------------------------------------------------------------------------
 
 type op struct {
-	Kind string `json:"kind"` // put | mpu | copy | delete | get | getsum | head | putparent | copyout (the key read by a CopyObject to a key of the operation's own)
+	Kind string `json:"kind"` // put | mpu | copy | delete | get | getsum | head | gettags (GetObjectTagging: every write has the tag w=<n>) | putparent | copyout (the key read by a CopyObject to a key of the operation's own)
 	W    int    `json:"w,omitempty"`
 	Proc int    `json:"proc,omitempty"`
 }
@@ -394,6 +421,8 @@ func execA(c caseA) (hist []histOp, overlap bool, err error) {
 			r, err = cl.Call("GET", path, nil, []s3c.KV{{K: "x-amz-checksum-mode", V: "ENABLED"}}, nil)
 		case "head":
 			r, err = cl.Call("HEAD", path, nil, nil, nil)
+		case "gettags":
+			r, err = cl.Call("GET", path, s3c.Q("tagging", ""), nil, nil)
 		case "copyout":
 			// a server-side copy reads the key like a GET does: what arrives at the destination (a key nobody else
 			// touches, read when the copy has answered) is what the copy read - body, ETag and metadata of one write
@@ -416,6 +445,8 @@ func execA(c caseA) (hist []histOp, overlap bool, err error) {
 			return ret{out: attribute(r, false)}
 		case "head":
 			return ret{out: attribute(r, true)}
+		case "gettags":
+			return ret{out: attributeTags(r)}
 		}
 		return ret{out: outcome{Status: r.Status, Note: r.Code()}}
 	}, c.Schedule)
@@ -447,6 +478,15 @@ func execA(c caseA) (hist []histOp, overlap bool, err error) {
 		pops = append(pops, porcupine.Operation{ClientId: len(res), Input: histIn{"get", 0}, Call: last + 1, Output: fo, Return: last + 2})
 		if fo.Torn != "" {
 			return hist, overlap, fmt.Errorf("torn read: the read after the race returns %s (initial state w%d)", fo.Torn, c.Initial)
+		}
+		// ... and so does its tag set: the tags of the write the key holds
+		if tr, terr := cls[0].Call("GET", path, s3c.Q("tagging", ""), nil, nil); terr == nil {
+			to := attributeTags(tr)
+			hist = append(hist, histOp{Op: op{Kind: "gettags"}, Call: last + 3, Return: last + 4, Out: to.String(), Points: []string{"(after all others had returned)"}})
+			pops = append(pops, porcupine.Operation{ClientId: len(res) + 1, Input: histIn{"gettags", 0}, Call: last + 3, Output: to, Return: last + 4})
+			if to.Torn != "" {
+				return hist, overlap, fmt.Errorf("torn read: the tag set read after the race: %s (the key holds w%d; initial state w%d)", to.Torn, fo.Val, c.Initial)
+			}
 		}
 	}
 	render := func() string {
@@ -488,7 +528,7 @@ func caseGen() *rapid.Generator[caseA] {
 		readers := 0
 		for i := 0; i < n; i++ {
 			var o op
-			o.Kind = rapid.SampledFrom([]string{"put", "put", "mpu", "copy", "delete", "get", "getsum", "getsum", "head", "put", "put", "mpu", "copy", "delete", "get", "getsum", "getsum", "head", "putparent", "copyout", "copyout"}).Draw(t, "kind")
+			o.Kind = rapid.SampledFrom([]string{"put", "put", "mpu", "copy", "delete", "get", "getsum", "getsum", "head", "put", "put", "mpu", "copy", "delete", "get", "getsum", "getsum", "head", "putparent", "copyout", "copyout", "gettags"}).Draw(t, "kind")
 			if i == n-1 && readers == 0 {
 				o.Kind = rapid.SampledFrom([]string{"getsum", "getsum", "get", "head"}).Draw(t, "reader")
 			}
@@ -500,7 +540,7 @@ func caseGen() *rapid.Generator[caseA] {
 					o.W, avail = avail[0], avail[1:]
 				}
 			}
-			if o.Kind == "get" || o.Kind == "getsum" || o.Kind == "head" || o.Kind == "copyout" {
+			if o.Kind == "get" || o.Kind == "getsum" || o.Kind == "head" || o.Kind == "copyout" || o.Kind == "gettags" {
 				readers++
 			}
 			o.Proc = rapid.IntRange(0, c.Procs-1).Draw(t, "proc")
